@@ -29,6 +29,7 @@ import (
 	"github.com/bloxapp/ssv/protocol/v2/blockchain/beacon"
 	"github.com/bloxapp/ssv/protocol/v2/qbft"
 	"github.com/bloxapp/ssv/protocol/v2/qbft/controller"
+	"github.com/bloxapp/ssv/protocol/v2/qbft/roundtimer"
 	"github.com/bloxapp/ssv/protocol/v2/ssv/queue"
 	"github.com/bloxapp/ssv/protocol/v2/ssv/runner"
 	"github.com/bloxapp/ssv/protocol/v2/ssv/validator"
@@ -164,6 +165,7 @@ type world struct {
 	commitSeen map[string]map[spectypes.OperatorID]bool
 	t0         time.Time
 	dutiesStarted map[int]int
+	mkTimer    func(op *operator, role spectypes.BeaconRole) roundtimer.Timer // nil: recording timers
 }
 
 func roleName(r spectypes.BeaconRole) string { return r.String() }
@@ -172,11 +174,14 @@ func msgID(ks *testingutils.TestKeySet, role spectypes.BeaconRole) spectypes.Mes
 	return spectypes.NewMsgID(testingutils.TestingSSVDomainType, ks.ValidatorPK.Serialize(), role)
 }
 
-func newWorld(d *sim.D, prop string, mkDB func() basedb.Database) *world {
+func newWorld(d *sim.D, prop string, mkDB func() basedb.Database, opts ...func(*world)) *world {
 	n := int(d.Cfg.Get("n", 4))
 	w := &world{d: d, prop: prop, n: n, f: (n - 1) / 3, ks: keySet(n), pending: map[pend]bool{}, signedOnce: map[string]bool{},
 		certified: map[string][]byte{}, commitSeen: map[string]map[spectypes.OperatorID]bool{}, t0: time.Now(), dutiesStarted: map[int]int{}}
 	w.baseSlot = beaconNet.EstimatedCurrentSlot()
+	for _, o := range opts {
+		o(w)
+	}
 	for i := 0; i < n; i++ {
 		w.ops = append(w.ops, w.newOperator(i, mkDB()))
 	}
@@ -207,8 +212,12 @@ func (w *world) newOperator(i int, db basedb.Database) *operator {
 	op.stores = ibftstorage.NewStoresFromRoles(db, roles...)
 	bn := beacon.NewNetwork(beaconNet)
 	build := func(role spectypes.BeaconRole, vc specqbft.ProposedValueCheckF) *controller.Controller {
+		var tm roundtimer.Timer = &recTimer{}
+		if w.mkTimer != nil {
+			tm = w.mkTimer(op, role)
+		}
 		cfg := &qbft.Config{Signer: km, SigningPK: share.ValidatorPubKey, Domain: testingutils.TestingSSVDomainType, ValueCheckF: vc,
-			ProposerF: specqbft.RoundRobinProposer, Storage: op.stores.Get(role), Network: op.net, Timer: &recTimer{}, SignatureVerification: true}
+			ProposerF: specqbft.RoundRobinProposer, Storage: op.stores.Get(role), Network: op.net, Timer: tm, SignatureVerification: true}
 		mid := msgID(ks, role)
 		return controller.NewController(mid[:], &share.Share, cfg, w.d.Cfg.Get("full_node", 0) == 1)
 	}
@@ -230,7 +239,7 @@ func (w *world) newOperator(i int, db basedb.Database) *operator {
 	ctx, cancel := context.WithCancel(context.Background())
 	op.cancel = cancel
 	op.v = validator.NewValidator(ctx, cancel, validator.Options{Network: op.net, Beacon: op.beacon, BeaconNetwork: bn, Storage: op.stores,
-		SSVShare: share, Signer: km, DutyRunners: rs, QueueSize: 64})
+		SSVShare: share, Signer: km, DutyRunners: rs, QueueSize: 256, Metrics: validator.NopMetrics{}})
 	return op
 }
 
